@@ -364,7 +364,7 @@ func c09PublishedOverTime(t *testing.T, res *verifResult, rng *mrand.Rand) (coq 
 		offset := time.Duration(rng.Intn(150)) * 100 * time.Microsecond
 		time.Sleep(offset)
 		total := 0
-		ob := env.c09Inject(c09Op{true, true, true, verifPassphrase}, &total)
+		ob := env.c09Inject(c09Op{true, true, true, verifPassphrase, ""}, &total)
 		if ob.code != 200 {
 			t.Fatalf("published-over-time: the right passphrase was answered %d", ob.code)
 		}
